@@ -172,16 +172,115 @@ def graphs_of(case, lines):
     return out
 
 
+def _gname(gn):
+    return '|'.join(gn.name) if isinstance(gn.name, tuple) else str(gn.name)
+
+
+def trace_graph(g):
+    """observation only: records which stage of Graph.solve positioned each gnode
+    ('longest' = assign_longest, 'fixed' = assign_fixed1, 'dangling' = the start/end branches of
+    assign_stretchy1, 'between' = its two-known-nodes branch; 'between' carries ':offpath' when the
+    path that is walked is not the longest path whose stretch is used).  The wrappers call the
+    original methods and do not alter any result."""
+    how = {}
+    walked = {}
+    o_longest, o_fixed1, o_s1 = g.assign_longest, g.assign_fixed1, g.assign_stretchy1
+
+    def unknown_names():
+        return set(_gname(gn) for gn in g.values() if gn.pos is None)
+
+    def assign_longest(path, unknown):
+        before = unknown_names()
+        r = o_longest(path, unknown)
+        for n in before - unknown_names():
+            how[n] = 'longest'
+        return r
+
+    def assign_fixed1(gnode):
+        r = o_fixed1(gnode)
+        if r:
+            how[_gname(gnode)] = 'fixed'
+        return r
+
+    def assign_stretchy1(gnode, unknown):
+        before = unknown_names()
+        branch = '?'
+        on_path = []
+        try:
+            to_path = g.path_to_closest_known(gnode, forward=True)
+            from_path = g.path_to_closest_known(gnode, forward=False)
+            tg, fg = to_path.to_gnode, from_path.to_gnode
+            if fg.name == 'start' and tg.name == 'end':
+                branch = 'unlucky'
+            elif fg.name == 'start' or tg.name == 'end':
+                branch = 'dangling'
+            else:
+                branch = 'between'
+                on_path = sorted(set(_gname(e.from_gnode) for e in list(from_path) + list(to_path)) |
+                                 set(_gname(e.to_gnode) for e in list(from_path) + list(to_path)))
+                path = g.longest_path(fg, tg)
+                walked = from_path.dist + to_path.dist
+                nst = from_path.stretches + to_path.stretches
+                if abs(walked - path.dist) > 1e-9 or nst != path.stretches:
+                    branch = 'between:offpath'
+        except Exception:
+            pass
+        r = o_s1(gnode, unknown)
+        for n in before - unknown_names():
+            how[n] = branch
+            if on_path:
+                walked[n] = on_path
+        return r
+
+    g.assign_longest, g.assign_fixed1, g.assign_stretchy1 = assign_longest, assign_fixed1, assign_stretchy1
+    return how, walked
+
+
 def raw_solve(sch, method, out):
     """output of the solve stage alone (graph units), on a fresh placer over the same elements"""
     placer = schemplacer(sch.elements, sch.nodes, method, 0)
     placer._make_graphs()
     for ax, g in (('x', placer.xgraph), ('y', placer.ygraph)):
-        try:
-            pos, extent = g.solve()
-            out[ax]['solved'] = {n: frs(v) for n, v in pos.items()}
-        except Exception as e:
-            out[ax]['solve_error'] = type(e).__name__ + ': ' + str(e)[:200]
+        how, walked = trace_graph(g) if method == 'graph' else (None, None)
+        with warnings.catch_warnings(record=True) as wl:
+            warnings.simplefilter('always')
+            try:
+                pos, extent = g.solve()
+                out[ax]['solved'] = {n: frs(v) for n, v in pos.items()}
+            except Exception as e:
+                import traceback
+                out[ax]['solve_error'] = type(e).__name__ + ': ' + str(e)[:200]
+                out[ax]['solve_error_line'] = [l.strip() for l in traceback.format_exc().split('\n') if l.startswith('    ')][-1:]
+        if how is not None:
+            out[ax]['assigned'] = how
+            out[ax]['walked'] = walked
+        if method == 'lineq':
+            # what Lineq.solve itself reported, and the shape of its LU factor (root-cause signatures)
+            negs = []
+            for w_ in wl:
+                m_ = str(w_.message)
+                if m_.startswith('Negative stretch'):
+                    try:
+                        negs.append(frs(float(m_.split()[-1])))
+                    except ValueError:
+                        pass
+            out[ax]['neg_warned'] = negs
+            U = getattr(g, 'U', None)
+            if U is not None and 'solved' in out[ax]:
+                ncol = U.shape[1] - 1
+                offdiag, tiny = [], []
+                for r_ in range(U.shape[0]):
+                    row = U[r_, :ncol]
+                    nz = bool((abs(row) > 1e-9).any())
+                    d_ = abs(U[r_, r_]) if r_ < ncol else 0.0
+                    if nz and d_ == 0:
+                        offdiag.append(r_)       # pivot of this row is not on the diagonal: the row is left out
+                    if 0 < d_ < 1e-9:
+                        tiny.append(r_)          # rounding residue taken as a pivot
+                    if r_ >= ncol and abs(U[r_, r_ if r_ < U.shape[1] else -1]) > 0 and not nz:
+                        tiny.append(r_)          # residue in the right-hand-side column of a redundant row
+                out[ax]['lu_offdiag_rows'] = offdiag
+                out[ax]['lu_tiny_pivots'] = tiny
 
 
 def run(case, idx):
